@@ -88,6 +88,8 @@ pub trait Check: Sync {
     fn extra(&self, _tier: Tier, _seed: u64, _stats: &Stats) -> Vec<(String, String, Value)> {
         Vec::new()
     }
+    /// called once after the search, before the evidence is written (extra coverage keys)
+    fn finish(&self, _stats: &Stats) {}
     /// what is kept in the `samples` list for one case (default: the case itself)
     fn sample(&self, case: &Self::Case) -> Value {
         serde_json::to_value(case).unwrap_or(Value::Null)
@@ -468,6 +470,7 @@ pub fn run_check<C: Check>(check: &C, tier: Tier, seed: u64) -> i32 {
         reported += 1;
     }
 
+    check.finish(&stats);
     let inconclusive = stats.inconclusive.load(Ordering::Relaxed);
     let wall = started.elapsed().as_secs_f64();
     write_evidence(check, tier, seed, &stats, reported, wall);
